@@ -45,6 +45,9 @@ Proof.
   intros k v s. unfold lput. destruct (lget k s); cbn; split; intros; try discriminate; auto.
 Qed.
 
+Theorem clear_spec : forall s k v e, lget k (lclear s) = None /\ lput k v e (lclear s) = (LOk, [(k, v)]).
+Proof. intros. unfold lclear, lput. cbn. split; reflexivity. Qed.
+
 Theorem delete_spec : forall k s k', lget k' (ldelete k s) = if String.eqb k' k then None else lget k' s.
 Proof.
   intros k s k'. unfold ldelete. destruct (String.eqb k' k) eqn:E.
